@@ -654,6 +654,23 @@ Proof.
         pose proof (sim_depth4 _ _ _ Sm). pose proof (count_true_le (s_lists ss)). lia.
 Qed.
 
+(* an assignment to a list counter no open list uses: invisible, whatever the two values *)
+Lemma assign_unused_sim : forall cls ms ss c a b, sim cls ms ss -> In c (dom ss) -> enum_unused c (s_lists ss) = true ->
+  sim cls (with_counters ms (setcounter c a (m_counters ms))) (with_vals ss (spec_set c b (s_vals ss))).
+Proof.
+  intros cls ms ss c a b Sm Hc Hun. unfold enum_unused in Hun. destruct (enum_index c) as [k|] eqn:Ek; [|discriminate].
+  apply Nat.ltb_lt in Hun. destruct (enum_index_some _ _ Ek) as [Hk4 ->].
+  unfold setcounter. rewrite (ensure_in _ _ (sim_dom_keys _ _ _ Sm _ Hc)).
+  apply sim_change_values; [exact Sm | apply set_value_shape | apply spec_set_dom | | |].
+  - intros n w Hw Hn. assert (Hne : n <> enum_nth k) by (intro; subst n; rewrite enum_nth_enum in Hn by exact Hk4; discriminate).
+    rewrite spec_set_other in Hw by exact Hne. rewrite value_of_set_other by exact Hne. apply (sim_vals _ _ _ Sm n w Hw Hn).
+  - intros p Hp. rewrite value_of_set_other by (intro; subst; contradiction). apply (sim_dead _ _ _ Sm p Hp).
+  - eapply lists_rel_ext; [| |apply (sim_lists _ _ _ Sm)].
+    + intros j Hj. apply value_of_set_other. intro X. apply enum_nth_inj in X; lia.
+    + intros j Hj. unfold sval. rewrite spec_set_other; [reflexivity|]. intro X. pose proof (count_true_le (s_lists ss)).
+      apply enum_nth_inj in X; lia.
+Qed.
+
 (* ---------------------------------------------------------------------------------------------- *)
 (** * Declarations *)
 
@@ -1055,22 +1072,25 @@ Section Events.
   Proof.
     intros c v ms ss ss1 o Sm Hs. cbn [spec_event] in Hs.
     destruct (lookup_name c (s_vals ss)) as [w|] eqn:Ec; [|discriminate].
-    destruct (enum_ok c (s_lists ss)) eqn:Eok; [|discriminate]. injection Hs as <- <-.
+    destruct (enum_ok c (s_lists ss) || enum_unused c (s_lists ss)) eqn:Eok; [|discriminate]. injection Hs as <- <-.
     cbn [run_event]. eexists _, []. split; [reflexivity|]. split; [reflexivity|].
-    apply assign_sim; [exact Sm | eapply lookup_name_dom; exact Ec | exact Eok].
+    assert (Hc : In c (dom ss)) by (eapply lookup_name_dom; exact Ec).
+    destruct (enum_ok c (s_lists ss)) eqn:E1; [apply assign_sim; [exact Sm | exact Hc | exact E1]|].
+    cbn [orb] in Eok. apply assign_unused_sim; [exact Sm | exact Hc | exact Eok].
   Qed.
 
   Lemma addto_sim : forall c v, event_sim cls depth (EAddTo c v).
   Proof.
     intros c v ms ss ss1 o Sm Hs. cbn [spec_event] in Hs.
     destruct (lookup_name c (s_vals ss)) as [w|] eqn:Ec; [|discriminate].
-    destruct (enum_ok c (s_lists ss)) eqn:Eok; [|discriminate]. injection Hs as <- <-.
+    destruct (enum_ok c (s_lists ss) || enum_unused c (s_lists ss)) eqn:Eok; [|discriminate]. injection Hs as <- <-.
     cbn [run_event]. eexists _, []. split; [reflexivity|]. split; [reflexivity|].
     assert (Hc : In c (dom ss)) by (eapply lookup_name_dom; exact Ec).
-    replace (addtocounter c v (m_counters ms)) with (setcounter c (w + v) (m_counters ms)).
-    - apply assign_sim; [exact Sm | exact Hc | exact Eok].
-    - unfold addtocounter, setcounter. rewrite (ensure_in c _ (sim_dom_keys _ _ _ Sm c Hc)).
-      rewrite (value_agree _ _ _ _ _ Sm Ec Eok). reflexivity.
+    replace (addtocounter c v (m_counters ms)) with (setcounter c (value_of c (m_counters ms) + v) (m_counters ms))
+      by (unfold addtocounter, setcounter; rewrite (ensure_in c _ (sim_dom_keys _ _ _ Sm c Hc)); reflexivity).
+    destruct (enum_ok c (s_lists ss)) eqn:E1.
+    - rewrite (value_agree _ _ _ _ _ Sm Ec E1). apply assign_sim; [exact Sm | exact Hc | exact E1].
+    - cbn [orb] in Eok. apply assign_unused_sim; [exact Sm | exact Hc | exact Eok].
   Qed.
 
   Lemma stepev_sim : forall c, event_sim cls depth (EStep c).
